@@ -715,3 +715,70 @@ Qed.
 Lemma write_empty_leaf key ind :
   write_el key (leaf []) ind = indent_str ind ++ [60] ++ key ++ [47; 62; 10].
 Proof. reflexivity. Qed.
+
+(* ------------------------------------------------------------------------------------------ *)
+(* the emacs output as a tree                                                                  *)
+
+Definition state_sexp (st : Z) : sexp :=
+  SAtom (if st =? 1 then a_t else if st =? 2 then a_pending else a_nil).
+
+Definition opt_sexp (o : option str) : list sexp :=
+  match o with Some s => [SStr s] | None => [] end.
+
+Definition post_sexp (x : xact) (p : post) : sexp :=
+  SList ([SAtom (dec_Z (p_line p)); SStr (p_account p); SStr (a_text (p_amount p));
+          state_sexp (eff_state x p)] ++
+         opt_sexp (option_map a_text (p_cost p)) ++ opt_sexp (p_note p)).
+
+Definition xact_sexp (path : str) (x : xact) : sexp :=
+  SList ([SStr path; SAtom (dec_Z (x_line x));
+          SList [SAtom (dec_Z (Z.quot (xact_secs x) 65536)); SAtom (dec_Z (Z.rem (xact_secs x) 65536));
+                 SAtom [48]];
+          match x_code x with Some c => SStr c | None => SAtom a_nil end;
+          match x_payee x with [] => SAtom a_nil | _ => SStr (x_payee x) end] ++
+         map (post_sexp x) (x_posts x)).
+
+Definition emacs_sexp (path : str) (xs : list xact) : list sexp :=
+  match xs with [] => [] | _ => [SList (map (xact_sexp path) xs)] end.
+
+Lemma parse_post x p stk done rest :
+  sexp_parse stk done (post_tokens x p ++ rest) = sexp_parse stk (post_sexp x p :: done) rest.
+Proof.
+  unfold post_tokens, post_sexp, state_tok, state_sexp.
+  destruct (p_cost p); destruct (p_note p);
+    cbn [option_map opt_tok opt_sexp app sexp_parse rev]; reflexivity.
+Qed.
+
+Lemma parse_posts x ps : forall stk done rest,
+  sexp_parse stk done (flat_map (post_tokens x) ps ++ rest)
+  = sexp_parse stk (rev (map (post_sexp x) ps) ++ done) rest.
+Proof.
+  induction ps as [|p ps IH]; intros stk done rest; [reflexivity|].
+  cbn [flat_map map rev]. rewrite <- !app_assoc. rewrite parse_post, IH. reflexivity.
+Qed.
+
+Lemma parse_xact path x stk done rest :
+  sexp_parse stk done ((LOpen :: xact_tokens path x ++ [LClose]) ++ rest)
+  = sexp_parse stk (xact_sexp path x :: done) rest.
+Proof.
+  unfold xact_tokens, xact_sexp.
+  destruct (x_code x); destruct (x_payee x);
+    cbn [app sexp_parse rev]; rewrite <- !app_assoc; rewrite parse_posts;
+    cbn [app sexp_parse]; rewrite rev_app_distr, rev_involutive; reflexivity.
+Qed.
+
+Lemma parse_xacts path xs : forall stk done rest,
+  sexp_parse stk done (flat_map (fun x => LOpen :: xact_tokens path x ++ [LClose]) xs ++ rest)
+  = sexp_parse stk (rev (map (xact_sexp path) xs) ++ done) rest.
+Proof.
+  induction xs as [|x xs IH]; intros stk done rest; [reflexivity|].
+  cbn [flat_map map rev]. rewrite <- !app_assoc. rewrite parse_xact, IH. reflexivity.
+Qed.
+
+Lemma emacs_read_lemma path xs : lisp_read (emacs_out path xs) = Some (emacs_sexp path xs).
+Proof.
+  unfold lisp_read. rewrite emacs_lex_lemma.
+  destruct xs as [|x xs]; [reflexivity|].
+  unfold emacs_tokens, emacs_sexp. cbn [sexp_parse].
+  rewrite parse_xacts. cbn [sexp_parse]. rewrite app_nil_r, rev_involutive. reflexivity.
+Qed.
